@@ -3,7 +3,7 @@ EXTENDS ExtElem, TraceBase
 VARIABLE l
 TReset == /\ st' = "init" /\ createdir' = "none" /\ search' = <<>> /\ present' = {} /\ fs' = [f \in Files |-> <<>>]
           /\ elems' = [e \in Elems |-> NoElem] /\ truth' = [e \in Elems |-> <<>>] /\ home' = [e \in Elems |-> <<>>]
-          /\ whole' = [e \in Elems |-> FALSE] /\ tainted' = {} /\ wc' = 0 /\ out' = [ret |-> 0] /\ hist' = <<>>
+          /\ whole' = [e \in Elems |-> FALSE] /\ tainted' = {} /\ hnd' = <<>> /\ dirchg' = FALSE /\ wc' = 0 /\ out' = [ret |-> 0] /\ hist' = <<>>
 \* the recorded payload is the one the write counter determines
 DataOK(d) == d = Payload(wc + 1, Len(d))
 Good(ev) ==
@@ -23,6 +23,10 @@ Good(ev) ==
              \/ ev.op = "Remove"       /\ Remove(a.name, a.dir)
              \/ ev.op = "Reopen"       /\ Reopen
              \/ ev.op = "Dump"         /\ Dump
+             \/ ev.op = "Attach"       /\ Attach(a.e)
+             \/ ev.op = "HRead"        /\ HRead
+             \/ ev.op = "HWrite"       /\ DataOK(a.data) /\ HWrite(a.pos, Len(a.data))
+             \/ ev.op = "Detach"       /\ Detach
           /\ ObsOK(out', o)
 TraceInit == Init /\ l = 1 /\ TLCSet(1, 1)
 TraceNext ==
